@@ -396,7 +396,7 @@ def _has_zero_leaf(t, depth=0):
     return False
 
 
-@rule("R-KEY-DECLARED", ["C16", "C14", "C13"])
+@rule("R-KEY-DECLARED", ["C16", "C14", "C13", "C10", "C08"])
 def r_key_declared(cx):
     """every parameter key an operator reads at apply time is one its constructor declares (gamut), stores, or one of
     the implicit keys: a key that nobody declares can never be set, so the option it stands for is silently ignored"""
@@ -489,6 +489,23 @@ def r_ellps_shadow(cx):
                     mir.walk(val, v)
                     if src:
                         ok = True
+        # ... and before the constructor itself asks for ellps(0) (e.g. to derive da/df)
+        if ok:
+            ctor = cx.f.fn(cpath)
+            ins_blocks = [bb for (bb, m, key, val) in K.inserts_in(cx.f, ctor) if m == "text" and key == "ellps"]
+            for bb, t in ctor.calls():
+                if (ctor.callee(t) or "") == K.PP + "::ellps":
+                    a = ctor.arg_terms(bb)
+                    if len(a) > 1 and a[1][0] == "const" and a[1][2] == 0:
+                        if ins_blocks and not any(bb in ctor.reach_from([b]) for b in ins_blocks):
+                            ok = False
+                            cx.ob("R-ELLPS-SHADOW", "%s/ellps_0/order" % c.names[0], False,
+                                  "%s asks for ellps(0) before it has given a supplied `ellps_0` precedence over the "
+                                  "defaulted `ellps`: what it derives from that value (da, df) refers to the default "
+                                  "ellipsoid" % c.names[0], cx.where(t["span"]))
+                            break
+            if not ok:
+                continue
         cx.ob("R-ELLPS-SHADOW", "%s/ellps_0" % c.names[0], ok,
               "%s stores a given `ellps_0` under `ellps`, so it is not shadowed by the default" % c.names[0] if ok else
               "%s declares both `ellps` and `ellps_0`: `ellps` is always present (default), ellps(0) prefers it, and the "
